@@ -1,5 +1,6 @@
 #!/bin/bash
-# Engine self-test for the goroutine scheduler and the happens-before race detector: toy harnesses with known verdicts.
+# Engine self-test: the goroutine scheduler and the happens-before race detector (toy harnesses with known verdicts),
+# and the symbolic UTF-8 decoder against the library's own decoder.
 cd /verif; export PATH=/opt/veriftools/go1.26.8/bin:$PATH GOTOOLCHAIN=local GOFLAGS=-mod=mod GOPROXY=off
 out=$(timeout 600 bin/gosym run -id SELF -harness /verif/harness/_selftest_sched -tier quick -evidence /tmp/gosym_selftest.json 2>&1 | grep "^harness")
 rm -rf /tmp/gosym_selftest.json /verif/replays/SELF
@@ -8,5 +9,8 @@ for want in "verifH_ST_channel holds" "verifH_ST_deadlock VIOLATED" "verifH_ST_g
   set -- $want
   echo "$out" | grep -q "harness $1 *$2" || { echo "SELFTEST FAIL: $1 expected $2"; fail=1; }
 done
+out2=$(timeout 900 bin/gosym run -id SELF -harness /verif/harness/_selftest_models -tier quick -evidence /tmp/gosym_selftest.json 2>&1 | grep "^harness")
+rm -rf /tmp/gosym_selftest.json /verif/replays/SELF
+echo "$out2" | grep -q "harness verifH_MT_runes *holds" || { echo "SELFTEST FAIL: verifH_MT_runes expected holds"; fail=1; }
 [ $fail = 0 ] && echo "SELFTEST OK"
 exit $fail
